@@ -63,6 +63,10 @@ CHECKS = {
             "exhaustive depth-bounded enumeration of operation histories over the real container classes, each replayed on fresh objects and compared with std::vector/std::map reference models; exhaustive evaluation of every vector operation on every representation of all dimension-3 vectors over a 3-letter alphabet against exact GMP rationals; second pass under AddressSanitizer",
             "All operation sequences up to depth 5-6 (thorough 6-8) over 25-70 instantiated calls per class for DataSet, ClassSet, SVSetBase, LPRowSet, LPColSet, IdxSet, DIdxSet, NameSet, DataHashTable (colliding hashes), DataArray, Array, ClassArray, IsList, IdList, from 2-4 initial states, with capacities small enough that every growth, pack and relocation path fires. After each sequence the container must agree with the model on numbering, keys, contents, lookups by key, number, name and address, perm witnesses, dead keys and capacity relations. Plus every vector operation for double and Rational on all 27 vectors of dimension 3 in all 98 sparse and 106 semi-sparse representations, products with all 19683 3x3 matrices held in an SVSet, sorter.h and StableSum on exhaustive small families.",
             "Trusted: the models and exact arithmetic in the harness. Depth and the dimension-3 / 3-letter alphabet are the only bounds; deeper levels use a reduced alphabet after the first 2 (thorough 3) operations. Operation instances that corrupt memory on the unchanged tree run only as last operations in isolated children. 16 genuine defects are recorded in known_findings.json."),
+    "C14": ("exploration", "DESIGN.md section 3 C14",
+            "bounded-exhaustive write/read of basis files for every valid basis (exact enumeration of regular bases x nonbasic placements) x names x format x writer branch, and of state files under every configuration with <=1 deviation, on the real reader/writer pair",
+            "(1) every stride-th canonical LP of the 2x2 and 3x2 families x {LP in the solver, LP held outside after a presolved solve} x {default names, user names} x cpxFormat x (the basis left by the solve + EVERY regular basis x EVERY admissible nonbasic placement, installed with setBasis - includes boxed columns at upper, fixed variables, nonbasic free columns and nonbasic free rows): writeBasisFile, then readBasisFile into the same object (after clearBasis) and into a new object; all row and column statuses must come back (up to FIXED marking of equal bounds). (2) LP x every configuration with <=1 deviation x {writeStateReal, writeStateRational} x names: loadSettingsFile + readFile + readBasisFile into a new object; every parameter except the objective sense, the LP under the MPS normalisations, the basis statuses, and status/value of the re-solve must agree.",
+            "Trusted: dense reference model, status comparison rule. Whether the objective offset travels with the state files and that maximisation is written as minimisation are recorded as observations. One genuine defect (MPS writer throws on free rows) is in known_findings.json; the default-name defect of readBasis was fixed."),
 }
 
 NOT_YET = {}
